@@ -399,11 +399,27 @@ func (s *Skiplist) DeleteNode2(n *Node, cmp CompareFn,
 func (s *Skiplist) deleteNode(n *Node, cmp CompareFn, buf *ActionBuffer, sts *Stats) bool {
 	itm := n.Item()
 	if s.softDelete(n, sts) {
-		s.findPath(itm, cmp, buf, sts)
+		// Unlink the node at every level. A path search stops at the first
+		// item that is not smaller than the target, but a concurrent insert
+		// of an equal item may have linked its node in front of this one at
+		// some level; the pass therefore has to look behind equal items too,
+		// or the node stays linked there (and is reclaimed while linked).
+		s.findPath(itm, behindEqual(cmp), buf, sts)
 		return true
 	}
 
 	return false
+}
+
+// behindEqual orders equal items before the target, so that a path search
+// runs past every item equal to it.
+func behindEqual(cmp CompareFn) CompareFn {
+	return func(this, that unsafe.Pointer) int {
+		if v := cmp(this, that); v != 0 {
+			return v
+		}
+		return -1
+	}
 }
 
 // GetRangeSplitItems returns `nways` split range pivots of the skiplist items
